@@ -45,6 +45,7 @@ func listenersSetup() {
 		panic(err)
 	}
 	lfixIdle = fi
+	realUpSetup()
 	time.Sleep(50 * time.Millisecond)
 }
 
@@ -55,6 +56,7 @@ func listenersTeardown() {
 	if lfixIdle != nil {
 		lfixIdle.close()
 	}
+	realUpTeardown()
 }
 
 var validSeq uint32
@@ -328,8 +330,118 @@ func runLinger(m map[string]string) string {
 			}
 		}()
 	}
+	late := 0
+	if !huge {
+		// a silent upstream on every listener kind: SERVFAIL, and within the request deadline (6 s) plus slack
+		for ki, kind := range listenerKinds {
+			ki, kind := ki, kind
+			extra++
+			wg.Add(1)
+			go func() {
+				defer wg.Done()
+				name := wireLabels([]byte(fmt.Sprintf("silent%d", seed)), []byte("deadline"), []byte(kind))
+				id := uint16(seed + 300 + ki)
+				via := "post"
+				if kind == "tcp" || kind == "gnet" || kind == "tls" {
+					via = "whole"
+				}
+				t0 := time.Now()
+				res := lfix.exchange(kind, buildQuery(id, name, 1, false, 0), via, 10*time.Second)
+				el := time.Since(t0)
+				if res.status != "resp" {
+					if os.Getenv("MIXDEBUG") != "" {
+						fmt.Fprintln(os.Stderr, "silent", kind, res.status, el)
+					}
+					return
+				}
+				mu.Lock()
+				defer mu.Unlock()
+				answered++
+				once++
+				if el > 7500*time.Millisecond {
+					late++
+				}
+				rm, err := dnsmsg.UnpackMsg(res.resp)
+				if err != nil {
+					return
+				}
+				defer dnsmsg.ReleaseMsg(rm)
+				if rm.Header.ID == id && rm.Header.Response && rm.Header.RecursionAvailable && rm.Header.RecursionDesired {
+					idok++
+				}
+				if rm.Header.RCode == dnsmsg.RCodeServerFailure {
+					rcodeok++
+				}
+				if len(rm.Questions) <= 1 && len(rm.Answers) == 0 {
+					own++
+				}
+			}()
+		}
+	}
+	if !huge {
+		// the same through a REAL udp:// upstream (pipelined UDP transport + TCP fallback) and a scripted server:
+		// a truncated reply retried over TCP is answered (tcok); a truncated reply that comes after 3 s followed
+		// by a TCP side that never answers is SERVFAIL within the request deadline (tcsil)
+		for ki, kind := range []string{"udp", "tcp", "https"} {
+			for si, beh := range []string{"tcok", "tcsil"} {
+				ki, kind, si, beh := ki, kind, si, beh
+				extra++
+				wg.Add(1)
+				go func() {
+					defer wg.Done()
+					name := wireLabels([]byte(fmt.Sprintf("%s%d", beh, seed)), []byte("realup"), []byte(kind))
+					id := uint16(seed + 400 + ki*2 + si)
+					via := "post"
+					if kind == "tcp" {
+						via = "whole"
+					}
+					t0 := time.Now()
+					res := lfixReal.exchange(kind, buildQuery(id, name, 1, false, 0), via, 10*time.Second)
+					el := time.Since(t0)
+					if res.status != "resp" {
+						if os.Getenv("MIXDEBUG") != "" {
+							fmt.Fprintln(os.Stderr, "realup", beh, kind, res.status, el)
+						}
+						return
+					}
+					mu.Lock()
+					defer mu.Unlock()
+					answered++
+					once++
+					if el > 7500*time.Millisecond {
+						late++
+					}
+					rm, err := dnsmsg.UnpackMsg(res.resp)
+					if err != nil {
+						return
+					}
+					defer dnsmsg.ReleaseMsg(rm)
+					if rm.Header.ID == id && rm.Header.Response && rm.Header.RecursionAvailable && rm.Header.RecursionDesired {
+						idok++
+					}
+					if beh == "tcsil" {
+						if rm.Header.RCode == dnsmsg.RCodeServerFailure {
+							rcodeok++
+						}
+						if len(rm.Questions) <= 1 && len(rm.Answers) == 0 {
+							own++
+						}
+						return
+					}
+					if rm.Header.RCode == dnsmsg.RCodeSuccess {
+						rcodeok++
+					}
+					if len(rm.Questions) <= 1 && len(rm.Answers) == 1 {
+						if a, isA := rm.Answers[0].(*dnsmsg.A); isA && a.A == answerFor(name, 1, 1) {
+							own++
+						}
+					}
+				}()
+			}
+		}
+	}
 	wg.Wait()
-	return fmt.Sprintf("sent=%d answered=%d once=%d idok=%d own=%d rcodeok=%d", 2*len(kinds)+extra, answered, once, idok, own, rcodeok)
+	return fmt.Sprintf("sent=%d answered=%d once=%d idok=%d own=%d rcodeok=%d ## late=%d", 2*len(kinds)+extra, answered, once, idok, own, rcodeok, late)
 }
 
 // buildPaddedQuery: an RD query with an OPT record carrying a padding option (RFC 7830) of pad octets.
@@ -463,7 +575,7 @@ func genServe(r *rand.Rand, thorough bool, emit func(c, cat string)) {
 			emit(fmt.Sprintf("kind=%s n=%d conc=%d mix=%s seed=%d", kind, n, []int{1, 8, 32}[r.Intn(3)], mix, r.Intn(1<<30)), kind+"-"+mix)
 		}
 	}
-	emit(fmt.Sprintf("kind=all n=19 conc=7 mix=linger seed=%d", r.Intn(30000)), "all-linger")
+	emit(fmt.Sprintf("kind=all n=33 conc=7 mix=linger seed=%d", r.Intn(30000)), "all-linger")
 	emit(fmt.Sprintf("kind=all n=14 conc=7 mix=huge seed=%d", r.Intn(30000)), "all-huge")
 	if thorough {
 		for _, kind := range listenerKinds {
